@@ -101,6 +101,7 @@ structure State where
   loaders : List ReqId := []   -- requests whose load goroutine is in WaitUntilRunning
   timerCbs : List Rid := []
   unloaders : List Rid := []   -- expireRunner calls parked on the refMu of a runner that is still loading
+  unloadCalls : List ModelId := []  -- expireRunner calls that have not got loadedMu yet (they pick the runner when they do)
   maxRunners : Nat := 0      -- OLLAMA_MAX_LOADED_MODELS (0 = not set yet)
   maxQueue : Nat := 512
   defaultSession : Nat := 1  -- OLLAMA_KEEP_ALIVE class
@@ -212,6 +213,7 @@ inductive Act
   | finishSend (q : ReqId)
   | timerCb (r : Rid)
   | unloadRun (r : Rid)                    -- a parked expireRunner call gets refMu
+  | unloadBind (m : ModelId)               -- an expireRunner call gets loadedMu and looks its runner up
 deriving Repr, DecidableEq
 
 def setRunner (s : State) (r : Rid) (x : Runner) : State := { s with runners := upd s.runners r x }
@@ -281,11 +283,9 @@ def step (v : Variant) (s : State) : Act → Option State
       some { setRunner s r { s.runners r with timerArmed := false } with timerCbs := r :: s.timerCbs }
     else none
   | .explicitUnload m =>
-    match lookup s.loaded m with
-    | none => some s
-    | some r =>
-      -- while the load goroutine holds refMu the call parks (holding loadedMu) and runs afterwards
-      if (s.runners r).locked then some { s with unloaders := r :: s.unloaders } else some (triggerExpire s r)
+    -- the call is asynchronous: which runner it expires is decided when it gets loadedMu (`unloadBind`),
+    -- possibly much later (another expireRunner call parked on a loading runner holds loadedMu meanwhile)
+    some { s with unloadCalls := m :: s.unloadCalls }
   | .pTake =>
     match s.ppc, s.pendingQ with
     | .idle, q :: rest =>
@@ -425,6 +425,15 @@ def step (v : Variant) (s : State) : Act → Option State
   | .unloadRun r =>
     if r ∈ s.unloaders ∧ ¬ (s.runners r).locked then
       some (triggerExpire { s with unloaders := s.unloaders.erase r } r)
+    else none
+  | .unloadBind m =>
+    if m ∈ s.unloadCalls then
+      let s := { s with unloadCalls := s.unloadCalls.erase m }
+      match lookup s.loaded m with
+      | none => some s
+      | some r =>
+        -- while the load goroutine holds refMu the call parks (holding loadedMu) and runs afterwards
+        if (s.runners r).locked then some { s with unloaders := r :: s.unloaders } else some (triggerExpire s r)
     else none
 
 /-- run a trace of actions; `none` if some action is not enabled -/
